@@ -325,6 +325,8 @@ theorem flip_blocklist (ph : Bytes) (rnd : Bool) (hs : selOf o f = some (ph, rnd
   fun ha => by
     obtain ⟨ph', rnd', hs', _, _, hb, _⟩ := (necessary c s m o f hsel ha).selected
     rw [hs] at hs'; cases hs'; rw [h] at hb; cases hb
+/-- (under `SelectorFam` this condition is subsumed by `flip_v4Registrant` / `flip_override`; the
+selector-independent statement is `family_consistency_any_selector` below) -/
 theorem flip_family_consistency (ph : Bytes) (rnd : Bool) (hs : selOf o f = some (ph, rnd))
     (h4 : isV4 ((overrideOf m f).getD ph) = true) (h : isV4 (registrantOf m) = false) : ¬ admitted c s m o f :=
   fun ha => by
@@ -338,6 +340,73 @@ theorem flip_liveness (ph : Bytes) (rnd : Bool) (hs : selOf o f = some (ph, rnd)
     rw [hs] at hs'; cases hs'; rw [hl h4 hps] at h; cases h
 
 end flips
+
+/-- **Family consistency does not rest on the selector.**  `flip_family_consistency` above is stated under
+`SelectorFam`, where its hypotheses already contradict `flip_v4Registrant` / `flip_override` (the selector
+and a valid override hand out an address of the requested family).  The check exists in the code for
+selectors that do *not* keep that contract ("IPv6 client chose IPv4 phantom": a legacy selection that
+answers an IPv6 request from a set without IPv6 subnets).  For **any** selector answer: no registration
+is built — hence none is tracked, probed, shared or announced — with an IPv4 phantom for a registrant
+that is not an IPv4 address. -/
+theorem family_consistency_any_selector (c : Cfg) (m : Msg) (o : Oracles) (f : Fam) (r : Reg)
+    (h : buildFam c m o f = .ok r) (h4 : isV4 r.phantom = true) : isV4 r.registrant = true := by
+  obtain ⟨ph, rnd, p, _, _, _, _, _, _, hfam, _, rfl⟩ := (buildFam_ok_iff c m o f r).mp h
+  exact hfam h4
+
+/-- … and it can be the only failing condition: a selector that answers the IPv6 request with an IPv4
+address, everything else as in the admitted base case -/
+theorem family_consistency_only_failing (c : Cfg) (m : Msg) (o : Oracles) (ph : Bytes) (rnd : Bool)
+    (hs : o.sel6 = some (ph, rnd)) (hov : overrideOf m .v6 = none) (h4 : isV4 ph = true)
+    (hreg : isV4 (registrantOf m) = false) : ∀ r, buildFam c m o .v6 ≠ .ok r := by
+  intro r h
+  obtain ⟨ph', rnd', p, hs', _, _, _, _, _, hfam, _, _⟩ := (buildFam_ok_iff c m o .v6 r).mp h
+  simp only [selOf] at hs'
+  rw [hs] at hs'; cases hs'
+  rw [hov] at hfam
+  simp only [Option.getD_none] at hfam
+  rw [hfam h4] at hreg; cases hreg
+
+/-! ### the registrar's transport-parameter override -/
+
+/-- which parameters are in force: the registrar's iff the response carries some **and** the client did
+not disable registrar overrides; everything else the libraries said is untouched -/
+theorem registrar_params_in_force (m : Msg) (o : Oracles) (ro : RROracles) :
+    (resolveOracles m o ro).paramsOk = (if paramsOverridden m then ro.paramsOk else o.paramsOk) ∧
+    (resolveOracles m o ro).tpPort = (if paramsOverridden m then ro.tpPort else o.tpPort) ∧
+    (resolveOracles m o ro).sel4 = o.sel4 ∧ (resolveOracles m o ro).sel6 = o.sel6 ∧
+    (resolveOracles m o ro).geoOk = o.geoOk ∧ (resolveOracles m o ro).covertOk = o.covertOk ∧
+    (resolveOracles m o ro).live = o.live ∧ (resolveOracles m o ro).proto = o.proto ∧
+    (resolveOracles m o ro).ident = o.ident := by
+  unfold resolveOracles
+  cases paramsOverridden m <;> simp
+
+/-- a client that disables registrar overrides keeps its own parameters, whatever the response carries -/
+theorem disabled_overrides_keep_client_params (m : Msg) (o : Oracles) (ro : RROracles)
+    (h : m.disableOverrides = true) : resolveOracles m o ro = o := by
+  unfold resolveOracles paramsOverridden
+  cases m.rr with
+  | none => simp
+  | some rr => simp [h]
+
+theorem selectorFam_resolve (m : Msg) (o : Oracles) (ro : RROracles) (hsel : SelectorFam o) :
+    SelectorFam (resolveOracles m o ro) := by
+  obtain ⟨_, _, h4, h6, _⟩ := registrar_params_in_force m o ro
+  exact ⟨fun ph rnd h => hsel.v4 ph rnd (by rw [← h4]; exact h), fun ph rnd h => hsel.v6 ph rnd (by rw [← h6]; exact h)⟩
+
+/-- the iff with a registrar response that carries transport parameters: the conditions are evaluated on
+the parameters in force -/
+theorem admitted_iff_registrar_params (c : Cfg) (s : RSt) (m : Msg) (o : Oracles) (ro : RROracles) (f : Fam)
+    (hsel : SelectorFam o) (hfresh : Fresh c m (resolveOracles m o ro) s) :
+    admitted c s m (resolveOracles m o ro) f ↔ Conditions c m (resolveOracles m o ro) f :=
+  admitted_iff_conditions c s m _ f (selectorFam_resolve m o ro hsel) hfresh
+
+/-- registrar parameters that the transport cannot parse prevent admission of **both** families (the
+override is applied to the payload both are built from), unless the client disabled overrides -/
+theorem flip_registrar_params (c : Cfg) (s : RSt) (m : Msg) (o : Oracles) (ro : RROracles) (f : Fam)
+    (hsel : SelectorFam o) (hov : paramsOverridden m = true) (h : ro.paramsOk = false) :
+    ¬ admitted c s m (resolveOracles m o ro) f := by
+  apply flip_params c s m _ f (selectorFam_resolve m o ro hsel)
+  rw [(registrar_params_in_force m o ro).1, if_pos hov, h]
 
 /-! ### in every other case: never connectable, never announced -/
 
@@ -806,5 +875,17 @@ example : admitB c0 m0 { o0 with sel4 := some ([192, 122, 190, 5], true) } .v4 =
 example : admitB c0 m0 { o0 with live := true } .v4 = false := by decide
 example : admitB c0 m0 { o0 with live := true } .v6 = true := by decide                   -- IPv6 is never probed
 example : admitB c0 { m0 with prescanned := true } { o0 with live := true } .v4 = true := by decide  -- pre-scanned: no probe
+
+-- a selector that breaks its contract (IPv4 answer to the IPv6 request) with an IPv6 registrant: the family
+-- check is the only condition that fails, and no IPv6 registration is built
+example : ∀ r, buildFam c0 { m0 with registrant := none } { o0 with sel6 := some ([198, 51, 100, 9], true) } .v6 ≠ .ok r :=
+  family_consistency_only_failing c0 _ _ [198, 51, 100, 9] true rfl rfl (by decide) (by decide)
+example : (buildFam c0 { m0 with registrant := none } o0 .v6).toOption.isSome = true := by decide
+-- the registrar's parameters replace the client's unless the client disabled overrides
+def rrBad : RROracles := { paramsOk := false, tpPort := none }
+example : admitB c0 { m0 with rr := some { tparams := true } } (resolveOracles { m0 with rr := some { tparams := true } } o0 rrBad) .v4
+    = false := by decide
+example : admitB c0 { m0 with rr := some { tparams := true }, disableOverrides := true }
+    (resolveOracles { m0 with rr := some { tparams := true }, disableOverrides := true } o0 rrBad) .v4 = true := by decide
 
 end CJ.Props.C07
